@@ -129,9 +129,9 @@ def g_axis(ch: core.Chooser, keepdims: bool = False, tuples: bool = True, min_nd
     if axis is not None or ch.chance(0.3):
         kwargs["axis"] = axis if axis is not None else {"none": 1}
     cx = ch.sub("axis-type")
-    if isinstance(axis, int) and cx.chance(0.15):
-        # the axis arrives as a 0-d integer array (what numpy.argmax and friends hand back) or as a numpy integer
-        kwargs["axis"] = A(numpy.array(axis), "int64")
+    if isinstance(axis, int) and cx.chance(0.3):
+        # the axis arrives as a 0-d integer array (what numpy.argmax and friends hand back), counted from either end
+        kwargs["axis"] = A(numpy.array(axis - nd if (axis >= 0 and cx.chance(0.5)) else axis), "int64")
     elif isinstance(axis, dict) and "tuple" in axis and cx.chance(0.3):
         kwargs["axis"] = {"seq": list(axis["tuple"])}
     if keepdims and ch.chance(0.4):
